@@ -248,9 +248,23 @@ def h_split(ctx, cfg):
     sel = _bits(ctx, "sel", R)
     k = sum(1 for b in sel if b)
     new = [ctx.real("nv%d" % i) for i in range(k)]
+    # views taken (and read) before the parent changes: they are views, not snapshots
+    oth = _bits(ctx, "oth", R)
+    early = screen.subset(np.array(oth, dtype=bool))
+    early_plates = screen.plates
+    pids = screen.plate_ids.tolist()
+    _ = (early.observation_mask.tolist(), early.observations.tolist(), early.is_observed, [p.is_observed for p in early_plates])
     screen.set_observed(np.array(sel, dtype=bool), np.array(new, dtype=float))
     now = [mask[i] or sel[i] for i in range(R)]
     ctx.prove(screen.observation_mask.tolist() == now, "set_observed marks the selected rows observed")
+    _check_view(ctx, early, screen, [i for i in range(R) if oth[i]], "view taken before set_observed")
+    ctx.prove(bool(early.is_observed) == all(now[i] for i in range(R) if oth[i]), "a view's is_observed follows the parent's current mask",
+              key="view taken before set_observed reports stale observation status")
+    for p in early_plates:
+        members = [i for i in range(R) if pids[i] == p.plate_id]
+        _check_view(ctx, p, screen, members, "plate view taken before set_observed")
+        ctx.prove(bool(p.is_observed) == all(now[i] for i in members), "a plate view's is_observed follows the parent's current mask",
+                  key="view taken before set_observed reports stale observation status")
 
     def split(label, now):
         ob, un = screen.subset_observed(), screen.subset_unobserved()
